@@ -474,3 +474,74 @@ func VHNewPagingFixture(n, extra int) *VHFixture {
 	w.syncClocks()
 	return &VHFixture{Repo: w.r, Alice: w.alice.Id(), Bob: w.bob.Id(), w: w}
 }
+
+// VH_C11_session: K arbitrary cache operations in a row (edit, new bug, pull-merge, remove,
+// close/reopen, new identity), the cache compared with a rebuild after every one of them.
+func VH_C11_session() {
+	w := vhNewWorld()
+	w.r.Remotes["origin"] = "url"
+	id0, h0 := w.storeBug(0, w.alice, "t0", 1)
+	w.r.SetRef("refs/bugs/"+id0.String(), h0)
+	id1, h1 := w.storeBug(1, w.bob, "t1", 0)
+	w.r.SetRef("refs/bugs/"+id1.String(), h1)
+	// what an earlier fetch brought: bug 0 is ahead on the remote, bug 2 is new there
+	hr := dag.VHStoreCommit(w.r, bug.VHFormatVersion, []repository.Hash{h0}, w.tick(), 0,
+		[]dag.Operation{bug.VHSetTitleOp(w.bob, vhOpId(200), "remote-title", "t0")}, w.bob)
+	w.r.SetRef("refs/remotes/origin/bugs/"+id0.String(), hr)
+	id2, h2 := w.storeBug(2, w.bob, "t2", 1)
+	w.r.SetRef("refs/remotes/origin/bugs/"+id2.String(), h2)
+	w.syncClocks()
+	c, err := NewRepoCacheNoEvents(w.r)
+	rt.Assert(err == nil, "cache-builds")
+	if err != nil {
+		return
+	}
+	steps := rt.Param("K", 2)
+	removed := false
+	for s := 0; s < steps; s++ {
+		tag := fmt.Sprintf("-step%d", s)
+		switch rt.Choose(6) {
+		case 0:
+			b, err := c.Bugs().Resolve(id1)
+			rt.Assert(err == nil, "bug-resolves"+tag)
+			if err == nil {
+				_, _, err = b.AddComment(fmt.Sprintf("c%d", s))
+				rt.Assert(err == nil && b.Commit() == nil, "edit-committed"+tag)
+			}
+			rt.Cover("edit")
+		case 1:
+			_, _, err := c.Bugs().New(fmt.Sprintf("new%d", s), "message")
+			rt.Assert(err == nil, "new-bug"+tag)
+			rt.Cover("new-bug")
+		case 2:
+			for _, res := range vhDrain(c.MergeAll("origin")) {
+				rt.Assert(res.Err == nil && res.Status != entity.MergeStatusInvalid, "valid-remote-merges"+tag)
+			}
+			rt.Cover("merge")
+		case 3:
+			if !removed {
+				rt.Assert(c.Bugs().Remove(id0.String()) == nil, "remove"+tag)
+				removed = true
+				rt.Cover("remove")
+			}
+		case 4:
+			rt.Assert(c.Close() == nil, "close"+tag)
+			c, err = NewRepoCacheNoEvents(w.r)
+			rt.Assert(err == nil, "reopen"+tag)
+			if err != nil {
+				return
+			}
+			rt.Cover("reopen")
+		default:
+			_, err := c.Identities().New(fmt.Sprintf("user%d", s), "u@example.org")
+			rt.Assert(err == nil, "new-identity"+tag)
+			rt.Cover("new-identity")
+		}
+		vhCoherent(c, w, tag)
+		if removed {
+			_, rerr := c.Bugs().ResolveExcerpt(id0)
+			rt.Assert(rerr != nil, "removed-bug-stays-gone"+tag)
+		}
+	}
+	rt.Observe("steps", steps)
+}
